@@ -11,6 +11,8 @@ VIEW = ["bip", FLAGS, do_import, import_mol_attr]          FLAGS = dict sp rp bv
        ["line", text, rule|None, parse_rule_from_suffix]    CRNHyperGraph().add_rxn_from_str
        ["parse", [text, ...], default_rule, parse_rule_from_suffix, prefer_suffix]   rxns_to_hypergraph
 
+case = {"kind": "sg-edit", "net": NET, "views": [], "sviews": [[include_mol, SDROPS, import_mol_attr, default_rule], ...]}   (round 5)
+       the same for the species graph (SDROPS = dict label kind mol rules maps legacy)
 case = {"kind": "bip-edit", "net": NET, "views": [], "dviews": [[FLAGS, DROPS, import_mol_attr, IMPORT_OPTS], ...]}   (round 5)
        export, then the caller DELETES attributes from the exported graph (DROPS = dict ksp krx lsp lrx st ro mol mk: kind / label on
        species / reaction nodes, stoich / role on arcs, mol / bipartite marker on nodes), then import with IMPORT_OPTS = dict isp irp dr
@@ -471,6 +473,81 @@ def _run_dview(H, dv, ret):
         out.append([2])
     return out
 
+SDROP_KEYS = ["label", "kind", "mol", "rules", "maps", "legacy"]
+
+
+def sdrops(**kw):
+    d = {k: False for k in SDROP_KEYS}
+    d.update(kw)
+    return d
+
+
+def _apply_sdrops(G, d):
+    for _, nd in G.nodes(data=True):
+        for k in ("label", "kind", "mol"):
+            if d[k]:
+                nd.pop(k, None)
+    for _, _, ed in G.edges(data=True):
+        if d["rules"]:
+            ed.pop("rules", None)
+        if d["maps"]:
+            ed.pop("stoich_r_map", None)
+            ed.pop("stoich_p_map", None)
+        if d["legacy"]:
+            ed.pop("stoich_r", None)
+            ed.pop("stoich_p", None)
+    return G
+
+
+def _sg_obs_edited(G):
+    """an absent rule set / map / legacy value is what the importer reads it as: empty set, empty map, 1 (see model/C16_Edit.v)"""
+    nodes = [[n, _opt(d, "label"), _opt(d, "kind"), _optmol(d)] for n, d in G.nodes(data=True)]
+    arcs = [[u, v, S(sorted(d["via"])), S(sorted(d.get("rules", ()))), int(d.get("stoich_r", 1)), int(d.get("stoich_p", 1)),
+             {k: int(c) for k, c in d.get("stoich_r_map", {}).items()}, {k: int(c) for k, c in d.get("stoich_p_map", {}).items()}]
+            for u, v, d in G.edges(data=True)]
+    return [S(nodes), S(arcs)]
+
+
+def _sg_order_dependent(G):
+    """species_graph_to_hypergraph keeps the FIRST coefficient it meets for a (reaction, species) pair; when the arcs of one reaction
+    carry different values for the same species (possible only without the per-reaction maps) the result depends on the iteration
+    order of a set-built graph: outside the model (code 9)"""
+    seen = {}
+    for u, v, d in G.edges(data=True):
+        for e in d["via"]:
+            sr = d.get("stoich_r_map", {}).get(e, d.get("stoich_r", 1))
+            sp = d.get("stoich_p_map", {}).get(e, d.get("stoich_p", 1))
+            for key, val in (((e, "r", G.nodes[u].get("label", str(u))), sr), ((e, "p", G.nodes[v].get("label", str(v))), sp)):
+                if seen.setdefault(key, val) != val:
+                    return True
+    return False
+
+
+def _run_sview(H, sv, ret):
+    from synkit.CRN.Hypergraph import conversion as cv
+    inc_mol, d, mol_attr, dr = sv
+    G = _apply_sdrops(cv.hypergraph_to_species_graph(H, include_mol=inc_mol), d)
+    ret.append(G)
+    out = [_sg_obs_edited(G)]
+    if _sg_order_dependent(G):
+        out.append([9])
+        return out
+    merged = {}
+    for _, _, ed in G.edges(data=True):
+        for e in ed["via"]:
+            merged.setdefault(e, set()).update(ed.get("rules", ()))
+
+    def rule_of(eid, e):
+        u = merged.get(eid, set())
+        return [e.rule if len(u) <= 1 else "", e.rule in u]
+
+    def go():
+        H2 = cv.species_graph_to_hypergraph(G, default_rule=dr, mol_attr=("mol" if mol_attr else None))
+        ret.append(H2)
+        return _net_obs(H2, rule_of, True)
+    out.append(_guard(go))
+    return out
+
 
 def _run_views(H, views, hist):
     out = []
@@ -492,6 +569,14 @@ def impl(case):
         for dv in case["dviews"]:
             ret = []
             outs.append(_run_dview(H, dv, ret))
+            if hist:
+                _scramble(ret)
+        return [before] + outs + [_net_obs(H)]
+    if "sviews" in case:
+        outs = []
+        for sv in case["sviews"]:
+            ret = []
+            outs.append(_run_sview(H, sv, ret))
             if hist:
                 _scramble(ret)
         return [before] + outs + [_net_obs(H)]
@@ -590,6 +675,9 @@ def _edit(ed):
 
 
 def coq_case(case):
+    if "sviews" in case:
+        return "run_sdrops %s %s" % (_net(case.get("net", {})), clist([
+            cpair(cbool(sv[0]), "(SDrops %s)" % " ".join(cbool(sv[1][k]) for k in SDROP_KEYS), cbool(sv[2]), cs(sv[3])) for sv in case["sviews"]]))
     if "dviews" in case:
         return "run_drops %s %s" % (_net(case.get("net", {})), clist([_dview(dv) for dv in case["dviews"]]))
     vs = [_view(v) for v in case["views"]]
@@ -731,6 +819,14 @@ def oracle(case):
     hist = bool(case.get("hist"))
     shared = hist or "edits" in case
     H = build(net) if shared else None            # history cases: ONE object through all steps, as in impl()
+    if "sviews" in case:
+        H = build(net)
+        edges = _edges_of(H)
+        for sv in case["sviews"]:
+            _run_sview(H, sv, [])
+        fails = [] if _edges_of(H) == edges else [dict(clause="source-network-changed", detail="collapse / edited import changed the exported network")]
+        plain = [["sg", sv[0], sv[2], dict(dr=sv[3], rename=False)] for sv in case["sviews"] if not any(sv[1].values())]
+        return (fails + _oracle_batch(net, (), plain, None, False, ""))[:6]
     if "dviews" in case:
         # edited graphs: the property speaks about the graph as exported, so only the entries WITHOUT deletions are judged as
         # round trips (the others: correspondence with the model); the exported network must come out unchanged in any case
@@ -845,6 +941,12 @@ def distribution(cases, obss):
             d["nets_with_name_collision"] += bool(ids & sp)
         d["nets_with_kept_species"] += bool(net.get("kept"))
         d["nets_with_mol"] += bool(net.get("mol"))
+        for sv, o in zip(c.get("sviews", []), obs[1:-1] if isinstance(obs, list) else []):
+            d["views"]["sg-edited"] = d["views"].get("sg-edited", 0) + 1
+            ei = d.setdefault("edited_species_graph_imports", {})
+            r = o[1] if isinstance(o, list) and len(o) == 2 else None
+            key = "network" if (isinstance(r, list) and r and r[0] == 0) else {9: "coefficient depends on arc order (outside the model)"}.get(r[0] if r else None, "error")
+            ei[key] = ei.get(key, 0) + 1
         for dv, o in zip(c.get("dviews", []), obs[1:-1] if isinstance(obs, list) else []):
             d["views"]["bip-edited"] = d["views"].get("bip-edited", 0) + 1
             ei = d.setdefault("edited_imports", {"deletions": {}, "result": {}})
@@ -1161,6 +1263,25 @@ def _gen_cases(tier, rng):
                 io = rng.choice(IMPORT_OPTS[:4])
             dvs.append([fl, d, rng.random() < 0.8, dict(isp=io["isp"], irp=io["irp"], dr=io["dr"])])
         cases.append(dict(kind="bip-edit", net=net, views=[], dviews=dvs, hist=(t % 4 == 3)))
+    # ---- (round 5) the same for the species graph: per-reaction maps deleted (legacy per-arc minima are used), legacy values too
+    #      (coefficient 1), rule sets (default rule), labels (node id), mol
+    for t in range(20 if quick else 150):
+        net = _rand_net(rng, nsp=rng.randint(1, 5), nrx=rng.randint(0, 6), adversarial=(t % 5 == 1))
+        if t % 3 == 0 and net["rxns"]:                      # arcs shared by several reactions, equal and different coefficients
+            e0 = net["rxns"][0]
+            net["rxns"].append([None, "h", [list(q) for q in e0[2]], [list(q) for q in e0[3]]])
+            net["rxns"].append([None, e0[1], [[q[0], q[1] + 1] for q in e0[2]], [list(q) for q in e0[3]]])
+        svs = []
+        for _ in range(10):
+            z = rng.random()
+            if z < 0.1:
+                d = sdrops()
+            elif z < 0.6:
+                d = sdrops(**{rng.choice(SDROP_KEYS): True})
+            else:
+                d = {k: rng.random() < 0.4 for k in SDROP_KEYS}
+            svs.append([rng.random() < 0.7, d, rng.random() < 0.8, rng.choice(["r", "r", "zz", ""])])
+        cases.append(dict(kind="sg-edit", net=net, views=[], sviews=svs, hist=(t % 4 == 3)))
     # ---- wrappers / facades of the converters: _as_bipartite (own defaults: integer ids), _as_species_graph, _CRNGraphBackend
     for t in range(10 if quick else 60):
         net = _rand_net(rng, nsp=rng.randint(1, 6), nrx=rng.randint(0, 6))
